@@ -6,5 +6,6 @@ CONSTANTS
   CacheTransparent = TRUE
   SerialsMemoised = TRUE
   ScopeFixed = FALSE
+  TouchInvisible = TRUE
 INVARIANTS C19_GraphStable
 CHECK_DEADLOCK FALSE
